@@ -8,7 +8,8 @@
 //     ptk <addr> <addr> <ptkhex> <0|1>       WPA2Decrypter::add_decryption_keys(SessionKeys(ptk, is_ccmp))
 //     apdata <pskhex> <ssidhex> [...]        WPA2Decrypter::add_ap_data(psk, ssid)
 //     apaddr <pskhex> <ssidhex> <addr> [...] WPA2Decrypter::add_ap_data(psk, ssid, addr)
-//     wpa <framehex> [@ ...]                 Dot11::from_bytes + WPA2Decrypter::decrypt (+ a stand-alone capturer)
+//     wpa <framehex> [@ ...]                 Dot11::from_bytes + WPA2Decrypter::decrypt (+ a stand-alone capturer);
+//                                            lk= lists the key-table entries announced by handshake callbacks
 //   c09_crypto gen        reference encryptor mode (independent of libtins, see c09_ref.h):
 //     wepenc <keyhex> <iv3hex> <keyid> <pthex>                               -> protected body
 //     tkipenc <tk16> <mickey8> <ta> <da> <sa> <prio> <tsc> <keyid> <pthex>   -> protected body
@@ -60,9 +61,11 @@ struct State {
     Crypto::WPA2Decrypter wpa;
     RSNHandshakeCapturer cap;
     std::vector<std::string> events;
+    std::vector<std::pair<addr_t, addr_t> > learned;     // (bssid, client) of the handshake callbacks since the last line
     State() {
         wpa.handshake_captured_callback([this](const std::string& ssid, const addr_t& bssid, const addr_t& client) {
             events.push_back("hs:" + to_hex((const uint8_t*)ssid.data(), ssid.size()) + ":" + addr_hex(bssid) + ":" + addr_hex(client));
+            learned.push_back(std::make_pair(bssid, client));
         });
         wpa.ap_found_callback([this](const std::string& ssid, const addr_t& bssid) {
             events.push_back("ap:" + to_hex((const uint8_t*)ssid.data(), ssid.size()) + ":" + addr_hex(bssid));
@@ -80,6 +83,20 @@ static std::string show_keys(const Crypto::WPA2Decrypter& w) {
           << to_hex(kv.second.get_ptk());
     }
     return first ? "-" : o.str();
+}
+
+// the key-table entries the handshake callbacks of this line announced: "<lo><hi>:<ccmp>:<ptk>" (the map key is sorted)
+static std::string show_learned(State& st) {
+    std::string s;
+    for (auto& p : st.learned) {
+        addr_t lo = p.first < p.second ? p.first : p.second, hi = p.first < p.second ? p.second : p.first;
+        auto it = st.wpa.get_keys().find(std::make_pair(lo, hi));
+        if (!s.empty()) s += ",";
+        if (it == st.wpa.get_keys().end()) s += addr_hex(lo) + addr_hex(hi) + ":none";
+        else s += addr_hex(lo) + addr_hex(hi) + ":" + (it->second.uses_ccmp() ? "1" : "0") + ":" + to_hex(it->second.get_ptk());
+    }
+    st.learned.clear();
+    return s.empty() ? "-" : s;
 }
 
 static std::string show_events(State& st) {
@@ -126,7 +143,7 @@ static int gen_mode() {
         if (w.size() == 6 && w[0] == "ccmpenc") {
             bytes tk, h, pt;
             if (!parse_hex(w[1], tk) || tk.size() != 16 || !parse_hex(w[2], h) || h.size() < 24 || !parse_hex(w[5], pt)) return "bad-op";
-            size_t need = 24 + ((h[1] & 3) == 3 ? 6 : 0) + ((h[0] & 0x80) ? 2 : 0);
+            size_t need = 24 + ((h[1] & 3) == 3 ? 6 : 0) + ((h[0] & 0x80) ? 2 : 0) + (((h[0] & 0x80) && (h[1] & 0x80)) ? 4 : 0);
             if (h.size() < need) return "bad-op";
             return to_hex(ref::ccmp_encap(tk.data(), h, std::stoull(w[3]), unsigned(std::stoul(w[4])), pt));
         }
@@ -211,7 +228,19 @@ int main(int argc, char** argv) {
             o << "r=" << r;
             if (!d) o << " nodata";
             else o << " prot=" << int(d->wep()) << " inner=" << show_inner(d->inner_pdu());
-            if (w[0] == "wpa") o << hs << " ev=" << show_events(*st) << " nk=" << st->wpa.get_keys().size();
+            if (w[0] == "wpa") {
+                o << hs << " ev=" << show_events(*st) << " nk=" << st->wpa.get_keys().size() << " lk=" << show_learned(*st);
+                // what the parsers made of the frame: the RSNEAPOL (key length / serialization) or the beacon (BSSID / SSID)
+                if (const RSNEAPOL* e = pdu->find_pdu<RSNEAPOL>()) {
+                    PDU::serialization_type ser = const_cast<RSNEAPOL*>(e)->serialize();
+                    o << " e=" << e->key().size() << "/" << ser.size() << "/" << fnv(ser.data(), ser.size());
+                }
+                if (const Dot11Beacon* b = pdu->find_pdu<Dot11Beacon>()) {
+                    o << " b=" << addr_hex(b->addr3()) << "/";
+                    try { std::string s = b->ssid(); o << "s" << to_hex((const uint8_t*)s.data(), s.size()); }
+                    catch (const option_not_found&) { o << "none"; }
+                }
+            }
             return o.str();
         }
         if (w[0] == "keys") return "keys=" + show_keys(st->wpa);
